@@ -39,6 +39,10 @@ def make_data(d):
 
 class C15(Machine):
     pid = "C15"
+    shadow_generic = True
+
+    def lru_configs(self, tier):
+        return ["default", "shadow"]
     rule = ("run = data set (N 1..4 series, T 8..40 odd and even, AR or "
             "near-periodic so that twins exist) + RNG personality + 3..15 "
             "generator calls repeated and interleaved on the same Surrogates "
